@@ -1,0 +1,63 @@
+//! Verification hook (only compiled with `--cfg pilota_verif`): runs the per-module code
+//! generation tasks of `Codegen::write_items` sequentially, in an order dictated from outside,
+//! and records the natural iteration order of the module map.
+//!
+//! * `PILOTA_VERIF_SCHEDULE=2,0,1` — permutation applied to the module keys sorted
+//!   ascending (absent: the map's own iteration order is kept);
+//! * `PILOTA_VERIF_TRACE=<file>` — one line per call with the natural order of the keys.
+
+use std::{collections::HashMap, fmt::Debug, io::Write};
+
+pub struct Scheduled<K, V>(Vec<(K, V)>);
+
+impl<K: Ord + Debug, V> Scheduled<K, V> {
+    pub fn new(map: HashMap<K, V>) -> Self {
+        let mut items: Vec<(K, V)> = map.into_iter().collect();
+        if let Ok(path) = std::env::var("PILOTA_VERIF_TRACE") {
+            if let Ok(mut f) = std::fs::OpenOptions::new()
+                .create(true)
+                .append(true)
+                .open(path)
+            {
+                let keys: Vec<String> = items.iter().map(|(k, _)| format!("{:?}", k)).collect();
+                let _ = writeln!(f, "mods\t{}", keys.join("\t"));
+            }
+        }
+        if let Ok(s) = std::env::var("PILOTA_VERIF_SCHEDULE") {
+            items.sort_by(|a, b| a.0.cmp(&b.0));
+            let order: Vec<usize> = s
+                .split(',')
+                .filter(|x| !x.is_empty())
+                .map(|x| x.parse().expect("PILOTA_VERIF_SCHEDULE"))
+                .collect();
+            if order.len() == items.len() {
+                let mut slots: Vec<Option<(K, V)>> = items.into_iter().map(Some).collect();
+                items = order
+                    .iter()
+                    .map(|i| slots[*i].take().expect("PILOTA_VERIF_SCHEDULE: not a permutation"))
+                    .collect();
+            } else {
+                // a schedule for another number of tasks: keep sorted order
+            }
+        }
+        Scheduled(items)
+    }
+
+    pub fn par_iter(&self) -> Seq<'_, K, V> {
+        Seq(&self.0)
+    }
+}
+
+pub struct Seq<'a, K, V>(&'a [(K, V)]);
+
+impl<'a, K, V> Seq<'a, K, V> {
+    pub fn for_each_with<T, F>(self, init: T, f: F)
+    where
+        F: Fn(&mut T, (&'a K, &'a V)),
+    {
+        let mut init = init;
+        for (k, v) in self.0 {
+            f(&mut init, (k, v));
+        }
+    }
+}
